@@ -1,5 +1,6 @@
 import PybtexModel.Drv.Json
 import PybtexModel.Model.World
+import PybtexModel.Model.ErrorsStack
 import PybtexModel.Model.NameFormat
 import PybtexModel.Gen.StyleMacros
 open Lean
@@ -214,8 +215,85 @@ def worldhist (j : Json) : Except String Json := do
     pure (c, brief)
   pure (obj [("out", arr (runCalls World.fresh calls)), ("spec", arr (freshResults (calls.map (·.1))))])
 
+/-! ## `capturehist`: primitive operations on `pybtex/errors.py`, `capture()` blocks nested freely -/
+
+def parseErr (j : Json) : Except String Err := do
+  let k ← (← j.getObjVal? "k").getStr?
+  match k with
+  | "invalid" => pure (.invalidName (← getStr j "name"))
+  | "nosuch" => pure (.noSuchName (← getInt j "n") (← getStr j "names"))
+  | "other" => pure (.other (← getStr j "tag"))
+  | _ => throw s!"unknown error kind {k}"
+
+def parseEOp (j : Json) : Except String EOp := do
+  let o ← (← j.getObjVal? "o").getStr?
+  match o with
+  | "report" => pure (.report (← parseErr (← j.getObjVal? "e")))
+  | "strict" => pure (.setStrict (← getBool j "b"))
+  | "enter" => pure .enter
+  | "exit" => pure .exit
+  | _ => throw s!"unknown errors operation {o}"
+
+def eresJ : ERes → Json
+  | .none => Json.null
+  | .raised e => obj [("raised", errJ e)]
+  | .warned e => obj [("warned", errJ e)]
+  | .collected l => obj [("collected", arr (l.map errJ))]
+  | .invalid => Json.str "INVALID"
+
+def errSteps (s : EState) : List EOp → List Json
+  | [] => []
+  | op :: ops =>
+    let r := estep s op
+    obj [("r", eresJ r.2), ("strict", Json.bool r.1.w.strict), ("error_code", nat r.1.w.errorCode),
+         ("captured", match r.1.w.captured with | none => Json.null | some l => arr (l.map errJ)),
+         ("depth", nat r.1.frames.length)] :: errSteps r.1 ops
+
+/-- `out`: the stack machine of Model/ErrorsStack.lean from the state of a fresh interpreter;
+`spec`: per `exit` what its block must hand out, read off the text of the sequence (`specCollected`) -/
+def errhist (j : Json) : Except String Json := do
+  let ops ← (← getArr j "ops").mapM parseEOp
+  pure (obj [("out", arr (errSteps EState.fresh ops)),
+             ("spec", arr ((specCollected [] ops).map fun o =>
+                match o with | none => Json.null | some l => arr (l.map errJ)))])
+
+/-! ## `dbhist`: `BibliographyData(wanted_entries=…)` and a sequence of `add_entry` calls (function level) -/
+
+/-- one `add_entry(key, Entry('misc', fields))` under `capture()`: before it `want_entry(key)` and
+`get_canonical_key(key)`; after it the keys held, the wanted set and what was reported -/
+def dbSteps (w : World) (r : Reader) : List (Str × Option (Str × Str)) → List Json
+  | [] => []
+  | (key, xr) :: rest =>
+    let fields : List (Str × Str) :=
+      ("note".toList, "n".toList) :: (match xr with | some (name, x) => [(name, x)] | none => [])
+    let e : Entry := { key := key, type := "misc".toList, fields := fields, persons := [] }
+    let x := addEntry { w with captured := some [] } r e
+    let (r1, raised) : Reader × Json := match x.2 with
+      | .ok r1 => (r1, Json.null)
+      | .error err => (r, errJ err)
+    obj [("want", Json.bool (wantEntry r key)), ("canonical", strToJson (canonicalKey r key)),
+         ("raised", raised),
+         ("reported", match x.1.captured with | some l => arr (l.map errJ) | none => Json.null),
+         ("keys", strs (r1.entries.map (·.key))),
+         ("wanted", match r1.wanted with | some s => strs s | none => Json.null)] :: dbSteps w r1 rest
+
+def dbhist (j : Json) : Except String Json := do
+  let cits ← match j.getObjVal? "cits" with
+    | .ok (.arr a) => pure (some (← a.toList.mapM jsonToStr))
+    | _ => pure none
+  let adds ← (← getArr j "adds").mapM fun a => do
+    let key ← getStr a "key"
+    match a.getObjVal? "xref" with
+    | .ok (.arr x) => pure (key, some (← jsonToStr x[0]!, ← jsonToStr x[1]!))
+    | _ => pure (key, none)
+  let r0 := match cits with | some c => newReaderWanted World.fresh c | none => newReader World.fresh
+  -- spec: the spelling an entry is stored under depends on the caller's citation list ONLY
+  -- (`C18_reader_accumulates`: `citations` never changes), whatever was added before
+  pure (obj [("out", arr (dbSteps World.fresh r0 adds)),
+             ("spec", strs (adds.map fun a => canonicalKey r0 a.1))])
+
 /-- driver ops of this property: (op name, handler) -/
 def handlers : List (String × (Json → Except String Json)) :=
-  [("memohist", memohist), ("worldhist", worldhist)]
+  [("memohist", memohist), ("worldhist", worldhist), ("capturehist", errhist), ("dbhist", dbhist)]
 
 end Pybtex.Drv.C18
